@@ -84,6 +84,8 @@ class Runner:
         if getattr(st, "features", None):
             for f in st.features:
                 hist.append([[t, v] for t, v in f.history.items()])
+        if isinstance(getattr(st, "history", None), dict) and st.history:
+            hist.append([[t, v] for t, v in st.history.items()])
         tr = env.broker.track_record
         return {"steps": self.outs, "log": log, "feature_history": hist, "n_records": len(tr),
                 "holdings": sorted([[k.symbol, v] for k, v in env.broker._holdings_quantity.items()],
@@ -226,6 +228,7 @@ VARIANTS = {
     "spot-delay": dict(sym_prices=True, delay=1),
     "stateful-reward": dict(sym_prices=True, stateful_reward=True),
     "feature": dict(sym_prices=True, feature=True),
+    "state-history": dict(sym_prices=True, state_history=True),
     "future": dict(sym_prices=True, contract="future", t_lo=(2030, 1, 1), t_hi=(2030, 5, 1)),
     "chain": dict(sym_prices=True, contract="chain", t_lo=(2030, 2, 20), t_hi=(2030, 3, 14)),
 }
@@ -242,7 +245,7 @@ def configs(tier):
         cfg["id"] = "C10/" + variant + "," + ",".join("%s=%s" % kv for kv in sorted(kw.items()))
         out.append(cfg)
 
-    quick_variants = ["spot", "spot-fees-latency", "spot-delay", "feature", "future", "stateful-reward"]
+    quick_variants = ["spot", "spot-fees-latency", "spot-delay", "feature", "state-history", "future", "stateful-reward"]
     for v in quick_variants:
         for scen in ("repeat", "abandon", "error", "fresh"):
             add(v, scenario=scen)
